@@ -356,23 +356,38 @@ ghost tvLen int
 ghost tv    seq[int]
 ghost tseg  seq[string]
 ghost tvSet set[int]
+// trace of AddDeep calls (C03): call k added element (adName[k], adVal[k]) split on adSep[k] below node adRoot[k]
+ghost adLen  int
+ghost adName seq[string]
+ghost adVal  seq[float64]
+ghost adSep  seq[string]
+ghost adRoot seq[int]
+// sum of the values of the n trace entries from a on
+fun SumVals(v seq[float64], a int, n int) float64 := if n <= 0 then 0.0 else SumVals(v, a, n - 1) + v[a + n - 1]
+lemma SumValsStore(v seq[float64], a int, n int, k int, x float64)
+  requires k >= a + n
+  ensures SumVals(store(v, k, x), a, n) == SumVals(v, a, n)
+  induction n { unfold SumVals(store(v, k, x), a, n); unfold SumVals(v, a, n) }
 func (*TreeNode).AddDeep
   props C03 C08
   requires @tree TreeInv() && tn in tnodes
   modifies heap(TreeNode), maps(string, *TreeNode)
-  modifies ghost(tnodes, tdepth, tmax, tmapOf, jlen, tvLen, tv, tseg, tvSet)
+  modifies ghost(tnodes, tdepth, tmax, tmapOf, jlen, tvLen, tv, tseg, tvSet, adLen, adName, adVal, adSep, adRoot)
   ensures @tree TreeInv() && tn in tnodes
+  ensures @traced [C03] adLen == old(adLen) + 1 && adName == store(old(adName), old(adLen), el.Name) && adVal == store(old(adVal), old(adLen), el.Value) && adSep == store(old(adSep), old(adLen), separator) && adRoot == store(old(adRoot), old(adLen), tn)
+  ensures @path-is-the-split-name [C03] tseg == SplitSegs(el.Name, separator) && tvLen == SplitN(el.Name, separator)
   ensures @nodes-kept forall n *TreeNode :: {n in tnodes} old(n in tnodes) ==> n in tnodes
   ensures @chain [C03] tvLen >= 0 && tv[0] == tn && (forall d int :: {tv[d]} 1 <= d && d <= tvLen ==> tv[d] in tnodes && tv[d] in tvSet && tdepth[tv[d]] == tdepth[tn] + d && tseg[d - 1] in ptr(TreeNode, tv[d - 1]).Children && tv[d] == mapget(ptr(TreeNode, tv[d - 1]).Children, tseg[d - 1]) && ptr(TreeNode, tv[d]).Name == tseg[d - 1])
   ensures @visited-exactly [C03] forall n *TreeNode :: {n in tvSet} n in tvSet ==> n in tnodes && tdepth[tn] < tdepth[n] && tdepth[n] <= tdepth[tn] + tvLen && tv[tdepth[n] - tdepth[tn]] == n
   ensures @adds-along-the-path [C03] forall n *TreeNode :: {n in tvSet} old(n in tnodes) ==> n.Total == old(n.Total) + (if n in tvSet then el.Value else 0.0)
   ensures @creates-missing [C03] forall n *TreeNode :: {n in tnodes} n in tnodes && !old(n in tnodes) ==> n in tvSet && n.Total == el.Value
-  ghost at entry { set tvLen := 0; set tv := store(tv, 0, tn); set tvSet := fconst(tvSet, false) }
+  ghost at entry { set tvLen := 0; set tv := store(tv, 0, tn); set tvSet := fconst(tvSet, false); set adName := store(adName, adLen, el.Name); set adVal := store(adVal, adLen, el.Value); set adSep := store(adSep, adLen, separator); set adRoot := store(adRoot, adLen, tn); set adLen := adLen + 1 }
   loop 1 {
     pre { set tseg := elems(names) }
     invariant @tree TreeInv() && parent in tnodes && tn == old(tn) && tn in tnodes && el == old(el)
-    invariant @segs elems(names) == tseg
+    invariant @segs elems(names) == tseg && tseg == SplitSegs(el.Name, separator) && len(names) == SplitN(el.Name, separator) && separator == old(separator)
     invariant @len tvLen == #i && tv[0] == tn
+    invariant @traced adLen == old(adLen) + 1 && adName == store(old(adName), old(adLen), el.Name) && adVal == store(old(adVal), old(adLen), el.Value) && adSep == store(old(adSep), old(adLen), separator) && adRoot == store(old(adRoot), old(adLen), tn)
     invariant @cur tv[#i] == parent
     invariant @depth tdepth[parent] == tdepth[tn] + #i
     invariant @nodes-kept forall n *TreeNode :: {n in tnodes} old(n in tnodes) ==> n in tnodes
